@@ -72,6 +72,7 @@ func dpkgExtras(r *rand.Rand, name string) []dpkgField {
 	}
 	if r.Intn(3) == 0 {
 		add("Conffiles", "", " /etc/x.conf 0123456789abcdef0123456789abcdef", " /etc/y: z 0123 obsolete")
+		fs[len(fs)-1].sep = "" // dpkg writes "Conffiles:" with nothing after the colon
 	}
 	if r.Intn(2) == 0 {
 		add("Description", pick(r, []string{"GNU C Library: Shared libraries", "transitional package", "short: with colon"}),
@@ -118,14 +119,34 @@ func (d dpkgRec) lines() []string {
 }
 
 func renderDpkg(recs []dpkgRec, lead int, gap func(i int) int, tail int, e eols) []byte {
+	rtReset()
 	ls := blanks(lead)
+	for k := 0; k < lead; k++ {
+		rtItem("b")
+	}
 	for i, d := range recs {
 		ls = append(ls, d.lines()...)
+		fs := make([]string, len(d.fields))
+		for j, f := range d.fields {
+			cs := make([]string, len(f.cont))
+			for k, c := range f.cont {
+				cs[k] = hq(c)
+			}
+			fs[j] = hq(f.key) + "=" + hq(f.sep) + "=" + hq(f.value) + "=" + strings.Join(cs, "~")
+		}
+		rtItem("r" + strings.Join(fs, "."))
 		if i < len(recs)-1 {
-			ls = append(ls, blanks(1+gap(i))...)
+			g := 1 + gap(i)
+			ls = append(ls, blanks(g)...)
+			for k := 0; k < g; k++ {
+				rtItem("b")
+			}
 		}
 	}
 	ls = append(ls, blanks(tail)...)
+	for k := 0; k < tail; k++ {
+		rtItem("b")
+	}
 	return e.join(ls)
 }
 
@@ -153,7 +174,7 @@ func genDpkg(r *rand.Rand) gcase {
 	if n > 0 && !recs[n-1].installed {
 		cls += "-lastNI"
 	}
-	return gcase{format: "dpkg", data: data, expect: exp, known: true, class: cls}
+	return gcase{format: "dpkg", data: data, expect: exp, known: true, class: cls, rtok: rtTok()}
 }
 
 var dpkgPool = []string{"Package: a", "Package: b", "Status: install ok installed", "Status: deinstall ok config-files", "Status: bad", "Status: install  ok installed", "Version: 1.0", "Version:", "Source: x (1", "Source: x (1)", " continuation", "\tcont", "", "", "nocolon", ": novalue", "Pack age: z", "package: lower", "Package : sp", "Description: d", " .", "Version: 2\r", "\r", "K\x01: v", "K: v\x01", "K: v\x7f", "Ké: v", "K: é", " ", "Status: install ok installed ", "Package:x", "a:b:c"}
@@ -213,7 +234,7 @@ func smallDpkg(emit func(gcase)) {
 								tail = 1
 							}
 							data := renderDpkg(recs, 0, func(int) int { return gap }, tail, eols{mode: eol, final: fin == 1})
-							emit(gcase{format: "dpkg", data: data, expect: exp, known: true, class: "small"})
+							emit(gcase{format: "dpkg", data: data, expect: exp, known: true, class: "small", rtok: rtTok()})
 						}
 					}
 				}
@@ -340,11 +361,34 @@ func reqFiller(r *rand.Rand) []string {
 
 func renderReq(recs []reqRec, before func(i int) []string, after []string, e eols) []byte {
 	var ls []string
-	for i, q := range recs {
-		ls = append(ls, before(i)...)
-		ls = append(ls, q.lines()...)
+	rtReset()
+	item := func(q reqRec) string {
+		if q.marker != "" || len(q.hashes) > 0 || q.sp[0] != "" {
+			return "x" // markers, per-requirement options, white space before the extras: outside the Lean GRec
+		}
+		ex, hasEx := "", "0"
+		if q.extras != "" {
+			ex, hasEx = hq(q.extras[1:len(q.extras)-1]), "1"
+		}
+		cw, ct, hasC := "", "", "0"
+		if q.comment != "" {
+			i := strings.IndexByte(q.comment, '#')
+			cw, ct, hasC = hq(q.comment[:i]), hq(q.comment[i+1:]), "1"
+		}
+		return "r" + hq(q.name) + "," + hq(q.op) + "," + hq(q.ver) + "," + hasEx + "," + ex + "," + hq(q.lead) + "," + hq(q.sp[1]) + "," + hq(q.sp[2]) + "," + hasC + "," + cw + "," + ct
 	}
-	ls = append(ls, after...)
+	for i, q := range recs {
+		for _, f := range before(i) {
+			ls = append(ls, f)
+			rtItem("f" + hq(f))
+		}
+		ls = append(ls, q.lines()...)
+		rtItem(item(q))
+	}
+	for _, f := range after {
+		ls = append(ls, f)
+		rtItem("f" + hq(f))
+	}
 	return e.join(ls)
 }
 
@@ -352,25 +396,36 @@ func genReq(r *rand.Rand) gcase {
 	n := nrec(r)
 	recs := make([]reqRec, n)
 	var exp []nv
+	core := r.Intn(2) == 0 // half of the files stay inside the grammar of C03_requirements_partial (no markers / hashes / continuations / env lines)
 	for i := range recs {
 		recs[i] = genReqRec(r)
+		if core {
+			recs[i].marker, recs[i].hashes, recs[i].cont, recs[i].sp[0] = "", nil, false, ""
+		}
 		exp = append(exp, nv{recs[i].name, recs[i].ver})
 	}
 	e := randEols(r)
 	fill := r.Intn(3)
+	filler := func() []string {
+		f := reqFiller(r)
+		for core && len(f) == 1 && strings.Contains(f[0], "${") {
+			f = reqFiller(r)
+		}
+		return f
+	}
 	before := func(i int) []string {
 		var fs []string
 		for k := r.Intn(1 + fill); k > 0; k-- {
-			fs = append(fs, reqFiller(r)...)
+			fs = append(fs, filler()...)
 		}
 		return fs
 	}
 	var after []string
 	for k := r.Intn(2); k > 0; k-- {
-		after = append(after, reqFiller(r)...)
+		after = append(after, filler()...)
 	}
 	data := renderReq(recs, before, after, e)
-	return gcase{format: "requirements", data: data, expect: exp, known: true, class: "wf-" + e.String()}
+	return gcase{format: "requirements", data: data, expect: exp, known: true, class: "wf-" + e.String(), rtok: rtTok()}
 }
 
 var reqPool = []string{"requests==2.31.0", "zope.interface==5.0", "q==1.0", "flask>=2.0", "a<2", "b!=1", "c>=1,<2", "d==1.*", "e>1.0", "f @ https://x/y.whl", "g[extra]==1.0", "h==1.0 ; python_version<'3'", "i==1.0 --hash=sha256:ab", "j==1.0 \\", "    --hash=sha256:cd", "# comment", "k==1.0 # c", "k==1.0#notcomment", "-r x.txt", "-e .", "", "  ", "asdf 1.0", "l ==1.0", "m== 1.0", "${X}==1", "n==${V}", "o[", "p]==1", "q[a][b]==2", "[x]r==1", "s==", "==1.0", "_t==1", "u_==1", "v-==1", ".w==1", "x.==1", "y===1.0", "z~=1.4.2", "aa<=3", "-Cfoo", "bb-Cc==1", "cc==1 -C x", "dd==1\\", "ee==1 \\\\", "ff==1\r", "g\tg==1", "hh==1;", ";ii==1", "jj==1==2", "kk>=1==2", "ll==1>=2", "\xc2\xa0mm==1", "nn==1\xc2\xa0", "\xe2\x80\x83oo==1", "pp==1 #", "#", " #", "qq==1\x0c# ff", "rr==1\x0b# vt",
@@ -436,7 +491,7 @@ func smallReq(emit func(gcase)) {
 							after = []string{"# end"}
 						}
 						data := renderReq(recs, before, after, eols{mode: eol, final: fin == 1})
-						emit(gcase{format: "requirements", data: data, expect: exp, known: true, class: "small"})
+						emit(gcase{format: "requirements", data: data, expect: exp, known: true, class: "small", rtok: rtTok()})
 					}
 				}
 			}
